@@ -213,11 +213,18 @@ def finish(rep, facts_stats, level_text, assumptions, trusted):
     }
     ev['coverage'].update(rep.extra)
     json.dump(ev, open(os.path.join(EVIDENCE_DIR, rep.pid + '.json'), 'w'), indent=1)
-    print('%s tier=%s: %d obligations over %d rules, %d discharged, %d known findings, %d new violations (%.1fs)' % (
-        rep.pid, rep.tier, len(rep.obligations), len(per_rule), len(oks), len(seen_known), len(uniq), time.time() - rep.t0))
+    head = ['%s tier=%s: %d obligations over %d rules, %d discharged, %d known findings, %d new violations (%.1fs)' % (
+        rep.pid, rep.tier, len(rep.obligations), len(per_rule), len(oks), len(seen_known), len(uniq), time.time() - rep.t0)]
     for r, v in sorted(per_rule.items()):
-        print('  %-28s %4d/%-4d %s' % (r, v['discharged'], v['obligations'], v['text'][:110]))
-    for l in lines:
-        print(l)
-    sys.stdout.flush()
-    return 1 if uniq else 0
+        head.append('  %-28s %4d/%-4d %s' % (r, v['discharged'], v['obligations'], v['text'][:110]))
+    rc = 1 if uniq else 0
+    try:
+        sys.stdout.write('\n'.join(head + lines) + '\n')
+        sys.stdout.flush()
+    except BrokenPipeError:
+        # the reader closed the pipe early (e.g. `| head`): the verdict is the exit code, the evidence file is already written
+        try:
+            sys.stdout = open(os.devnull, 'w')
+        except OSError:
+            pass
+    return rc
